@@ -52,6 +52,14 @@ class BoundMethod:
     def __hash__(self):
         return hash((id(self.func), id(self.self_)))
 
+    @property
+    def __self__(self):
+        return self.self_
+
+    @property
+    def __func__(self):
+        return self.func
+
 
 class SymMethod:
     __slots__ = ('recv', 'name')
@@ -78,7 +86,8 @@ class Closure:
 
 
 class Frame:
-    __slots__ = ('info', 'locals', 'enclosing', 'gen', 'first_arg', 'defcls', 'loop_counter', 'call_counter')
+    __slots__ = ('info', 'locals', 'enclosing', 'gen', 'first_arg', 'defcls', 'loop_counter', 'call_counter',
+                 'reduce_counter', 'reduce_site')
 
     def __init__(self, info, locals_, enclosing, first_arg=None, defcls=None):
         self.info = info
@@ -89,6 +98,8 @@ class Frame:
         self.defcls = defcls
         self.loop_counter = 0
         self.call_counter = 0
+        self.reduce_counter = 0
+        self.reduce_site = None
 
 
 class SuperProxy:
@@ -237,6 +248,7 @@ class Interp:
         self.depth = 0
         self.max_depth = 400
         self.fn_name = '?'
+        self.frame_stack = []
 
     def current_function_name(self):
         return self.fn_name
@@ -340,6 +352,7 @@ class Interp:
         if self.depth > self.max_depth:
             self.depth -= 1
             raise Unsupported('interpretation depth exceeded in %s' % frame.info.qualname)
+        self.frame_stack.append(frame)
         try:
             if isinstance(node, ast.Lambda):
                 return self.eval(node.body, frame)
@@ -349,6 +362,10 @@ class Interp:
             return None
         finally:
             self.depth -= 1
+            if self.frame_stack and self.frame_stack[-1] is frame:
+                self.frame_stack.pop()
+            elif frame in self.frame_stack:
+                self.frame_stack.remove(frame)
 
     def call_real_function(self, func, args, kwargs, defcls=None):
         """Interpret a real function object from its source."""
@@ -510,6 +527,10 @@ class Interp:
                 return SymMethod(obj, name)
             if isinstance(obj, (Closure, BoundMethod)) and name in ('__name__', '__qualname__'):
                 return getattr(obj, name, getattr(getattr(obj, 'func', None), name, '?'))
+            if isinstance(obj, BoundMethod) and name == '__self__':
+                return obj.self_
+            if isinstance(obj, BoundMethod) and name == '__func__':
+                return obj.func
             raise Unsupported('attribute %s of %r' % (name, obj))
         if isinstance(obj, type):
             for k in obj.__mro__:
@@ -982,11 +1003,10 @@ class Interp:
             return v
         st = self.st
         # definitely decided under the path condition?
-        if st.must_hold(t.t):
-            st.assume(t.t)
+        ent = st.entailed_site(t.t)
+        if ent == 'T':
             return self._boolop(is_and, vals, i + 1, frame) if is_and else v
-        if st.must_hold(z3.Not(t.t)):
-            st.assume(z3.Not(t.t))
+        if ent == 'N':
             return v if is_and else self._boolop(is_and, vals, i + 1, frame)
         # the left value is used as a boolean only when it is an SBool (else fork for the value)
         if isinstance(v, SBool) and st.merge_site():
@@ -1116,6 +1136,8 @@ class Interp:
         if isinstance(obj, (list, tuple)) and _slice_sym(idx):
             raise Unsupported('symbolic slice of concrete list')
         if isinstance(obj, dict) or type(obj).__name__ == 'mappingproxy':
+            if isinstance(idx, SBool):
+                idx = self.st.fork(idx)
             if isinstance(idx, Sym):
                 raise Unsupported('symbolic dict key')
             try:
@@ -1208,6 +1230,17 @@ class Interp:
         raise Unsupported('bare FormattedValue')
 
     def e_ListComp(self, node, frame):
+        if len(node.generators) == 1 and not node.generators[0].ifs:
+            src = self.eval(node.generators[0].iter, frame)
+            if isinstance(src, (SOpt, SChoice)):
+                src = self.resolve(src)
+            if isinstance(src, SList):
+                from . import seqs
+                return seqs.map_comprehension(self, node, frame, src)
+            out = []
+            self._comp(node.generators, 0, frame, frame.locals, lambda fr: out.append(self.eval(node.elt, fr)),
+                       first_iter=src)
+            return out
         out = []
         self._comp(node.generators, 0, frame, frame.locals, lambda fr: out.append(self.eval(node.elt, fr)))
         return out
